@@ -78,6 +78,10 @@ def canonical(log):
                 end += 1
             result.extend(sorted(log[index:end]))
             index = end
+        elif kind == "row":
+            # what exactly a check receives for a fixed-width cell (padded or stripped) is not part of the statement
+            result.append([log[index][0], "row", [str(v).strip() for v in log[index][2]]])
+            index += 1
         else:
             result.append(log[index])
             index += 1
